@@ -1,4 +1,52 @@
 import EaselModel.Core.Proto
-/-! Line-protocol driver for the C13 model (stub: answers bad-op until the model lands). -/
-open EaselModel.Proto
-def main : IO Unit := runDriver () (fun s _ => (s, "bad-op"))
+import EaselModel.Miniapps.Tools
+/-! Line-protocol driver for the C13 reference functions: predicts the complete stdout of a tool invocation
+    (`rc=0 out=<hex>`) or answers `nopred` when the invocation is outside the reference's domain. -/
+open EaselModel EaselModel.Proto EaselModel.Miniapps
+
+structure S where
+  files : List (String × Option (List Char)) := []
+  last : Option (List Char) := none
+
+def bytesToChars (b : List UInt8) : List Char := b.map fun x => Char.ofNat x.toNat
+def charsToBytes (c : List Char) : List UInt8 := c.map fun x => UInt8.ofNat x.toNat
+
+def splitNul (b : List UInt8) : List String :=
+  (bytesToChars b |>.splitOn (Char.ofNat 0)).map String.ofList
+
+def lookupFile (s : S) (n : String) : Option (List Char) :=
+  match s.files.find? (fun p => p.1 == n) with
+  | some (_, some c) => some c
+  | _ => none
+
+def step (s : S) (line : String) : S × String :=
+  let ws := words line
+  match ws with
+  | "file" :: _ =>
+    match arg? ws "name", argHex? ws "hex" with
+    | some n, some b => ({ s with files := (n, some (bytesToChars b)) :: s.files }, "ok")
+    | _, _ => (s, "bad-op")
+  | "save" :: _ =>
+    match arg? ws "name" with
+    | some n => ({ s with files := (n, s.last) :: s.files }, "ok")
+    | none => (s, "bad-op")
+  | "run" :: _ =>
+    match arg? ws "tool", arg? ws "args" with
+    | some tool, some ah =>
+      let argv := if ah == "-" then [] else match bytesOfHex ah with
+        | some b => splitNul b
+        | none => []
+      if (arg? ws "stdin").isSome then ({ s with last := none }, "nopred") else
+      match runTool tool argv (lookupFile s) with
+      | some out =>
+        -- `esl-sfetch --index f` leaves `f.ssi` behind: later fetches of the case may rely on it
+        let files := match tool, argv with
+          | "esl-sfetch", ["--index", f] => (f ++ ".ssi", some []) :: s.files
+          | _, _ => s.files
+        ({ s with last := some out.toList, files := files }, "rc=0 out=" ++ hexOrDash (charsToBytes out.toList))
+      | none => ({ s with last := none }, "nopred")
+    | _, _ => (s, "bad-op")
+  | "cat" :: _ => (s, "nopred")
+  | _ => (s, "bad-op")
+
+def main : IO Unit := runDriver ({} : S) step
